@@ -10,6 +10,7 @@ import (
 	"fmt"
 	"os"
 	"path/filepath"
+	"reflect"
 	"sort"
 	"strings"
 
@@ -63,9 +64,38 @@ type sStruct struct {
 }
 
 // storeVal: the Go value standing for value id v: every kind, nil included (id 0)
+// Values of the reference kinds (slice, map, pointer) come in twins: v and v+10 (v/10 even) have
+// the same CONTENT (reflect.DeepEqual) but are different objects and different values of the
+// model; which object the store hands back is told by identity (valRegistry), not by content.
+var valRegistry = map[uintptr]int{}
+
+func contentID(v int) int {
+	if (v/10)%2 == 1 {
+		return v - 10
+	}
+	return v
+}
+
+func register(x any, v int) any {
+	rv := reflect.ValueOf(x)
+	switch rv.Kind() {
+	case reflect.Ptr, reflect.Slice, reflect.Map:
+		valRegistry[rv.Pointer()] = v
+	}
+	return x
+}
+
 func storeVal(v int) any {
 	if v == 0 {
 		return nil
+	}
+	switch v % 10 {
+	case 4:
+		return register([]int{contentID(v)}, v)
+	case 5:
+		return register(map[string]int{"id": contentID(v)}, v)
+	case 6:
+		return register(&Tok{ID: contentID(v)}, v)
 	}
 	switch v % 10 {
 	case 1:
@@ -92,6 +122,15 @@ func storeVal(v int) any {
 	}
 }
 func storeValID(x any) int {
+	if x != nil {
+		rv := reflect.ValueOf(x)
+		switch rv.Kind() {
+		case reflect.Ptr, reflect.Slice, reflect.Map:
+			if v, ok := valRegistry[rv.Pointer()]; ok {
+				return v
+			}
+		}
+	}
 	switch t := x.(type) {
 	case nil:
 		return 0
@@ -139,6 +178,7 @@ func encMap(m map[string]any) [][2]int {
 }
 
 func runStore(ops []SOp) (rets []SRet) {
+	valRegistry = map[uintptr]int{}
 	st := flyt.NewSharedStore()
 	maps := map[int]map[string]any{}
 	keyss := map[int][]string{}
@@ -359,13 +399,13 @@ func coqRets(rs []SRet) string {
 // ---------------------------------------------------------------- generation
 
 type storeGen struct {
-	r      *rng
-	ops    []SOp
-	next   int
-	maps   []int
-	keyss  []int
-	nkeys  int
-	nextV  int
+	r     *rng
+	ops   []SOp
+	next  int
+	maps  []int
+	keyss []int
+	nkeys int
+	nextV int
 }
 
 func (g *storeGen) val() int {
@@ -469,6 +509,10 @@ func storeCorpus() [][]SOp {
 		{{K: "set", Key: 1, Val: 1}, {K: "set", Key: 2, Val: 2}, {K: "keys"}, {K: "keysset", Ref: 1, Idx: 0, Key: 7}, {K: "keys"}, {K: "has", Key: 7}, {K: "has", Key: 1}, {K: "readkeys", Ref: 1}},
 		// a later binding in a merged map wins
 		{{K: "set", Key: 1, Val: 1}, {K: "mergelit", Lit: [][2]int{{1, 2}, {1, 3}, {2, 4}}}, {K: "get", Key: 1}, {K: "get", Key: 2}, {K: "len"}},
+		// a second value with the same content but another identity replaces the first (pointer, slice, map)
+		{{K: "set", Key: 1, Val: 6}, {K: "set", Key: 1, Val: 16}, {K: "get", Key: 1}, {K: "getall"}},
+		{{K: "set", Key: 1, Val: 4}, {K: "set", Key: 1, Val: 14}, {K: "get", Key: 1}, {K: "set", Key: 2, Val: 5}, {K: "mergelit", Lit: [][2]int{{2, 15}}}, {K: "get", Key: 2}, {K: "getall"}},
+		{{K: "set", Key: 3, Val: 26}, {K: "getall"}, {K: "set", Key: 3, Val: 36}, {K: "get", Key: 3}, {K: "readsnap", Ref: 1}},
 	}
 }
 
